@@ -481,6 +481,16 @@ def j2_j3_constructor_round_trip(ctx) -> None:
                 attrs = pattrs.get(pname, set())
                 wm = P.find_method(target, "to_jsonable")
                 keys_written = {k for k, v in W.items() if v is not None and writer_attr_mentions(P, target, wm, v) & attrs}
+                if attrs and not keys_written and not keys_read:
+                    # nothing is saved for this state; the constructor recomputes it when the parameter is
+                    # left at its default None.  Handing in a fixed value instead replaces what the original had.
+                    dflt = _param_default(init.node, pname)
+                    fixed = not any(isinstance(x, ast.Name) and x.id not in ("tuple", "list", "dict", "set", "frozenset") for x in ast.walk(a)) \
+                        and not (isinstance(a, ast.Constant) and a.value is None)
+                    if dflt is not None and isinstance(dflt, ast.Constant) and dflt.value is None and fixed:
+                        ctx.violation("J2", c, f"{fd.qualname} passes the fixed value `{norm(a)}` to parameter `{pname}`; its state ({sorted(attrs)}) is not saved and is "
+                                      "recomputed when the parameter is left out: the reloaded object gets this value instead of what the original computed")
+                    continue
                 if not attrs or not keys_written:
                     continue
                 if not keys_read:
@@ -505,6 +515,57 @@ def j2_j3_constructor_round_trip(ctx) -> None:
         else:
             ctx.violation("J2", w.node, f"AbstractStrategy.to_jsonable writes key '{k}' from {sorted(attrs)}, which is not the attribute set from a "
                           f"constructor parameter named `{k}`: user strategies reloaded with cls(**d) get another setting", construct=f"AbstractStrategy.to_jsonable key {k}")
+
+
+def _param_default(init: ast.FunctionDef, pname: str) -> Optional[ast.AST]:
+    a = init.args
+    pos = a.posonlyargs + a.args
+    for i, p in enumerate(pos):
+        if p.arg == pname:
+            j = i - (len(pos) - len(a.defaults))
+            return a.defaults[j] if j >= 0 else None
+    for p, d in zip(a.kwonlyargs, a.kw_defaults):
+        if p.arg == pname:
+            return d
+    return None
+
+
+def j7_positional_settings(ctx) -> None:
+    """Settings handed on to a constructor of the package positionally arrive at the parameter
+    of that position, whatever the variable is called: a call `C(a, b)` whose arguments are
+    plain names that are *also* parameter names of C, at other positions, has them exchanged
+    (possibly_empty / inferrable, start / end, ...)."""
+    P = ctx.P
+    n = 0
+    for fi in P.all_functions():
+        if fi.cls is None:
+            continue
+        for c in walk_local(fi.node):
+            if not isinstance(c, ast.Call) or len(c.args) < 2:
+                continue
+            target = None
+            if isinstance(c.func, ast.Attribute) and c.func.attr == "__init__" and isinstance(c.func.value, ast.Call) and norm(c.func.value.func) == "super":
+                target = P.super_method(fi.cls, "__init__")
+            elif isinstance(c.func, ast.Name) and c.func.id in P.classes:
+                target = P.find_method(P.classes[c.func.id], "__init__")
+            elif isinstance(c.func, ast.Name) and c.func.id == "cls" and fi.is_classmethod():
+                target = P.find_method(fi.cls, "__init__")
+            if target is None:
+                continue
+            pnames = target.params()[1:]
+            args = [(i, a.id) for i, a in enumerate(c.args) if isinstance(a, ast.Name)]
+            if any(isinstance(a, ast.Starred) for a in c.args):
+                continue
+            n += 1
+            wrong = [(i, nm) for i, nm in args if i < len(pnames) and nm in pnames and pnames.index(nm) != i and pnames[i] in [x for _, x in args] and pnames[i] != nm]
+            if wrong:
+                ctx.violation("J7", c, f"{fi.qualname}: `{norm(c)[:90]}` passes " + ", ".join(f"`{nm}` as parameter `{pnames[i]}`" for i, nm in wrong)
+                              + f" of {target.qualname} (declared order: {', '.join(pnames)}): the settings are exchanged, and a round trip through the keyword-based "
+                              "loader puts them back, so the reloaded object differs")
+    if n < 10:
+        ctx.floor("J7", 99)
+    else:
+        ctx.ok("J7", f"{n} positional constructor calls of the package: no setting is passed under another setting's position")
 
 
 def _eq_compares_dict(P: Program, cls: ClassInfo) -> Optional[FuncInfo]:
@@ -557,6 +618,22 @@ def j4_equality_purity(ctx) -> None:
                     p = parent(n)
                     if isinstance(p, (ast.Attribute, ast.Subscript)):
                         hit = n
+                # contents of what the dictionary holds: self.attr[k] = v, self.attr.append(...), ...
+                if hit is None and isinstance(n, ast.Subscript) and isinstance(n.ctx, (ast.Store, ast.Del)) and is_self_attr(n.value):
+                    hit = n
+                    inner_state = True
+                elif hit is None and isinstance(n, ast.Call) and isinstance(n.func, ast.Attribute) and is_self_attr(n.func.value) \
+                        and n.func.attr in ("append", "extend", "add", "update", "setdefault", "pop", "popitem", "clear", "remove", "discard", "insert", "__setitem__"):
+                    hit = n
+                    inner_state = True
+                else:
+                    inner_state = False
+                if hit is not None and inner_state:
+                    bad = True
+                    ctx.violation("J4", C.stmt_of(hit), f"{m.qualname} changes the contents of `{norm(hit.value if isinstance(hit, ast.Subscript) else hit.func.value)}` outside "
+                                  f"__init__, and {eqm.qualname} compares __dict__ (contents included): an instance that has been used no longer equals a fresh or reloaded one "
+                                  "with the same settings")
+                    continue
                 if hit is not None:
                     bad = True
                     ctx.violation("J4", C.stmt_of(hit), f"{m.qualname} writes into the instance __dict__ outside __init__, and {eqm.qualname} compares __dict__: "
